@@ -294,7 +294,7 @@ func checkC17(c *Ctx, r *Report) {
 		var exch *ssa.Call
 		allInstrs(sc, false, func(in ssa.Instruction) {
 			if call, ok := in.(*ssa.Call); ok {
-				if f := call.Call.StaticCallee(); f != nil && starters[f] {
+				if f := viewCallee(sc, call); f != nil && starters[f] {
 					exch = call
 				}
 			}
@@ -513,7 +513,6 @@ func checkSerialisersOverwrite(c *Ctx, r *Report) {
 		}
 	}
 }
-
 
 // checkDecoderAssignment runs the definite-full-assignment rule on the layer decoders
 // whose receiver type satisfies keep (all of them when keep is nil). Shared: a response
